@@ -1,4 +1,5 @@
 import TucanProofs.Lemmas.V2000
+import TucanProofs.Lemmas.V2000File
 import TucanProofs.Lemmas.Tables
 /-!
 # C08 — the V2000 reader agrees with V3000 on the same molecule
@@ -38,6 +39,28 @@ theorem C08_property_block (atoms : List (Int × Atom)) (bl : List BlockLine) (l
         rad := nonZero (lastAssigned asg .rad k) <|> base.rad,
         mass := nonZero (lastAssigned asg .mass k) <|> base.mass })) :=
   parseAttributeBlock_spec atoms bl lines tail hlines
+
+/-- **The whole V2000 connection table.**  Three header lines, the counts line, fixed-column atom lines with
+an atom-block charge code, fixed-column bond lines, atom-list lines, a property block (any mixture of
+`M  CHG` / `M  RAD` / `M  ISO` and unrelated lines), `M  END`, and anything after it: the reader returns the
+atoms in file order with the stated element (D/T = hydrogen-2/3), coordinates, and charge / radical / mass as
+the charge code and the property block determine them, and one bond per bond line with its type. -/
+theorem C08_connection_table (h0 h1 h2 countsTail : Str) (atoms : List V2Atom) (bonds : List V2Bond)
+    (lists : List Str) (bl : List BlockLine) (blockLines : List Str) (tail : List Str)
+    (hatoms : ∀ a ∈ atoms, a.Ok)
+    (hna : (intRepr (atoms.length : Int)).length ≤ 3) (hnb : (intRepr (bonds.length : Int)).length ≤ 3)
+    (hnl : (intRepr (lists.length : Int)).length ≤ 3)
+    (hbonds : ∀ b ∈ bonds, (intRepr b.a).length ≤ 3 ∧ (intRepr b.b).length ≤ 3 ∧ (intRepr b.t).length ≤ 3 ∧
+      1 ≤ b.a ∧ b.a ≤ atoms.length ∧ 1 ≤ b.b ∧ b.b ≤ atoms.length)
+    (hskipB : ∀ b ∈ bonds, SkippedLine b.line) (hskipL : ∀ l ∈ lists, SkippedLine l)
+    (hblock : RendersAll (atoms.zipIdx.map fun (a, i) => ((i : Int), a.record)) bl blockLines) :
+    graphAttributesV2000
+        (h0 :: h1 :: h2 :: (pad3 atoms.length ++ pad3 bonds.length ++ pad3 lists.length ++ countsTail) ::
+          (atoms.map V2Atom.line ++ bonds.map V2Bond.line ++ lists ++ blockLines ++ cs "M  END" :: tail)) =
+      .ok (applyBlock bl (atoms.zipIdx.map fun (a, i) => ((i : Int), a.record)),
+           bonds.foldl (fun d b => ainsert (b.a - 1, b.b - 1) ({ btype := some b.t } : Bond) d) []) :=
+  graphAttributesV2000_spec h0 h1 h2 countsTail atoms bonds lists bl blockLines tail hatoms hna hnb hnl hbonds
+    hskipB hskipL hblock
 
 /-- the charge codes of the atom block, as the CTfile specification defines them (regenerated table) -/
 theorem C08_charge_codes : chargeCode 0 = (none, none) ∧ chargeCode 1 = (some 3, none) ∧ chargeCode 2 = (some 2, none) ∧
